@@ -6,6 +6,7 @@ import HdVerif.Generated.T6i
 import HdVerif.Generated.T6p
 import HdVerif.Generated.T6q
 import HdVerif.Generated.T6r
+import HdVerif.Generated.T6s
 /-! # C06  Pixel transforms follow the DICOM pipeline and the tri-state flags
 
 Property theorems only.  Definitions under `HdVerif.Gen` are regenerated from /repo's current source on
@@ -1040,6 +1041,57 @@ example : outputRules false false false false true true false "u" "u" false "MON
 example : outputRules false false false false true false false "u" "u" false "MONOCHROME" = .ok (false, true, true, true, false, false) := by decide
 example : ∃ e, outputRules false false false false false false true "u" "u" false "MONOCHROME" = .error e :=
   window_needs_float_output false false false false false false "u" "u" false "MONOCHROME" (by decide)
+
+/-! ## Which construction `__init__` takes (regenerated T6s)
+
+The hand-written `build` chooses among eight constructions by pattern matching on what the model found; the source chooses by
+an if / elif chain (`combineBranch`, regenerated, each arm recognised by what it builds).  The two dispatches coincide, and
+the construction fixes the kind of effective transform that `__call__` applies. -/
+
+/-- which of the eight constructions the MODEL's `build` takes (read off its pattern matches) -/
+def buildCode (p : Params) (st : Stages) : Int :=
+  let modality := if st.modality then p.modality else .none
+  let voi := if st.voi then p.voi else .none
+  match modality, voi with
+  | .lut _ _, .window _ _ _ => 1
+  | .lut _ _, .lut _ _ => 2
+  | .lut _ _, .none => if st.invert then 3 else 4
+  | _, .window _ _ _ => 5
+  | _, .lut _ _ => 6
+  | _, .none => if st.invert then 7 else 8
+
+def Eff.kind : Eff → String
+  | .lut _ _ _ => "table"
+  | .affine _ _ _ => "affine"
+  | .window _ _ _ _ => "window"
+  | .ident => "none"
+
+/-- the model dispatches as the source does: the regenerated if / elif chain of the combination block, fed with what the
+    model has found, names the construction `build` takes -/
+theorem tie_build_dispatch (p : Params) (st : Stages) :
+    let modality := if st.modality then p.modality else Modality.none
+    let voi := if st.voi then p.voi else Voi.none
+    combineBranch (match modality with | .lut _ _ => true | _ => false) false
+        (match voi with | .window _ _ _ => true | _ => false) (match voi with | .lut _ _ => true | _ => false) st.invert
+      = .ok (buildCode p st) := by
+  simp only [buildCode, combineBranch]
+  cases (if st.modality then p.modality else Modality.none) <;> cases (if st.voi then p.voi else Voi.none) <;>
+    cases st.invert <;> simp
+
+/-- ... and the construction determines the kind of effective transform: a table for 1-4 and 6, a window for 5, slope /
+    intercept (or nothing at all when no rescale is present) for 7 and 8 -/
+theorem build_kind_by_code (p : Params) (st : Stages) (e : Eff) (h0 : st.rwvm = false) (h : build p st = .ok e) :
+    Eff.kind e = (if buildCode p st = 5 then "window"
+      else if buildCode p st = 7 then "affine"
+      else if buildCode p st = 8 then (match (if st.modality then p.modality else Modality.none) with | .rescale _ _ => "affine" | _ => "none")
+      else "table") := by
+  unfold build at h
+  simp only [h0, Bool.false_eq_true, ↓reduceIte] at h
+  unfold buildCode
+  cases hm : (if st.modality then p.modality else Modality.none) <;> cases hv : (if st.voi then p.voi else Voi.none) <;>
+    cases hi : st.invert <;> simp only [hm, hv, hi] at h ⊢ <;> (try split at h) <;> (try split at h) <;> (try split at h) <;>
+    (try cases h) <;> (try (injection h with h; subst h)) <;> (try contradiction) <;> (try simp_all [Eff.kind])
+
 
 /-! ## Type and range of the stored values (regenerated T6r)
 
